@@ -26,7 +26,7 @@ PROPS = {
     "C01": {"families": ["api_optimize", "norm_none", "cleanup_execute", "unused_execute", "projection_execute"], "oracle": "sem"},
     "C02": {"families": ["unify_pairs", "unify_sequences", "sumchains_get_var", "sumchains_replace_optimize", "sumchains_execute", "minmax_replace_minimize", "minmax_replace_sum", "minmax_execute", "inline_minimize", "inline_execute"], "oracle": "sem"},
     "C03": {"families": ["binding_body", "binding_head", "norm_inline", "norm_preprocess", "norm_expand_comparisons", "norm_replace_old_aggregates", "cleanup_mappings", "dep_create_domain", "api_optimize"], "oracle": "struct"},
-    "C04": {"families": ["unique_variables", "unique_names", "binding_body", "binding_head", "duplication_occurrences", "duplication_collect", "duplication_execute", "projection_good_split", "projection_rule", "api_optimize"], "oracle": "struct"},
+    "C04": {"families": ["safe_stmt", "unique_variables", "unique_names", "binding_body", "binding_head", "duplication_occurrences", "duplication_collect", "duplication_execute", "projection_good_split", "projection_rule", "api_optimize"], "oracle": "struct"},
     "C05": {"families": ["norm_replace_old_aggregates", "norm_remove_bounds", "norm_expand_comparisons", "norm_unpool", "norm_preprocess", "norm_exline", "norm_inline", "norm_none"], "oracle": "sem"},
     "C06": {"families": ["projection_good_split", "projection_rule", "projection_execute", "cleanup_execute", "symmetry_execute", "minmax_execute", "sumchains_execute", "api_optimize"], "oracle": "sem"},
     "C07": {"families": ["unique_variables", "unique_names"], "oracle": "struct"},
